@@ -11,6 +11,7 @@ import (
 	"encoding/json"
 	"flag"
 	"fmt"
+	"github.com/syndtr/goleveldb/leveldb/opt"
 	"math/rand"
 	"os"
 	"sort"
@@ -197,8 +198,15 @@ func main() {
 				newestOK = append(newestOK, k)
 			}
 		}
-		// Recover
+		// Recover - under the option set of the run or under an explicit strictness that leaves StrictReader (and
+		// StrictRecovery) off / turns StrictReader on: Recover masks StrictReader itself, the outcome must be the same
 		o := *w.O
+		switch rng.Intn(3) {
+		case 1:
+			o.Strict = opt.StrictJournalChecksum | opt.StrictBlockChecksum
+		case 2:
+			o.Strict = opt.StrictJournalChecksum | opt.StrictBlockChecksum | opt.StrictReader | opt.StrictCompaction
+		}
 		func() {
 			defer func() {
 				if x := recover(); x != nil {
